@@ -199,7 +199,7 @@ class JsonStream(Stream):
             'non-trivial = value contains a container or an escaped string; distinct by value')
 
     def gen(self, rng, tier):
-        n = 250 if tier == 'quick' else 6000
+        n = 250 if tier == 'quick' else 4000
         out = []
         for i in range(n):
             v = gen_value(rng, 3, True, surrogates=(i % 5 == 0))
@@ -369,7 +369,7 @@ class FieldStream(Stream):
         return self._fresh[i]
 
     def gen(self, rng, tier):
-        n = 600 if tier == 'quick' else 14000
+        n = 600 if tier == 'quick' else 10000
         cl = classes()
         out = []
         for _ in range(n):
@@ -601,7 +601,7 @@ class MiscStream(Stream):
 
     # ---------------- generation
     def gen(self, rng, tier):
-        n = 500 if tier == 'quick' else 12000
+        n = 500 if tier == 'quick' else 8000
         out = []
         for _ in range(n):
             k = rng.randrange(5)
@@ -1136,7 +1136,7 @@ class MaintStream(Stream):
             'ill-typed entry fields; non-trivial = at least one entry present at the end; distinct by case')
 
     def gen(self, rng, tier):
-        n = 300 if tier == 'quick' else 8000
+        n = 300 if tier == 'quick' else 5000
         out = []
         for _ in range(n):
             ops = []
